@@ -141,9 +141,25 @@ def _run_base(ctx):
                     if other and depends_on(dis, other[0], lambda n: any(n is rc and rt and rt[-1] == key
                                                                         for rc, rt in reads), defs) is not None:
                         ok = True
+                        # ... and the value was read in the SAME scope it is unset in: the command prefix is not extended (--global/--system appended)
+                        # between the read and the unset
+                        for rc, rt in reads:
+                            if not (rt and rt[-1] == key):
+                                continue
+                            rst = repo.stmt_of(rc)
+                            base_names = {x.id for x in ast.walk(rc) if isinstance(x, ast.Name)} & {x.id for x in ast.walk(c) if isinstance(x, ast.Name)}
+                            for m_ in g.stmts():
+                                mut = any(isinstance(y, ast.Call) and isinstance(y.func, ast.Attribute) and y.func.attr in ('append', 'extend', 'insert') and
+                                          isinstance(y.func.value, ast.Name) and y.func.value.id in base_names for y in ast.walk(m_) if not isinstance(m_, (ast.If, ast.For, ast.While, ast.Try, ast.With))) or \
+                                    (isinstance(m_, ast.AugAssign) and isinstance(m_.target, ast.Name) and m_.target.id in base_names)
+                                if mut and not g.dominated_by(rst, [m_]) and m_ in g.reachable(rst) and st in g.reachable(m_):
+                                    ok = False
+                                    scope_why = 'the value is read with the command prefix as it is BEFORE `%s`, the unset runs after it: the guard looks at one scope (the effective value) and ' \
+                                                'the removal hits another -- a global merge.tool=meld is removed because the repository says nbdime' % repo.norm(m_)
                 ctx.inst('R18.2', fid, cons, ok,
                          'shared key %s is unset only after reading it and finding nbdime' % key if ok else
-                         'shared key %s is unset unconditionally: a user setting pointing at another tool is removed' % key, c)
+                         (locals().get('scope_why') or 'shared key %s is unset unconditionally: a user setting pointing at another tool is removed' % key), c)
+                scope_why = None
             else:
                 ok = bool(flag and OWN.match(str(flag)))
                 ctx.inst('R18.2', fid, cons, ok, 'sets own key' if ok else 'disable writes foreign key/flag %s' % flag, c)
